@@ -38,12 +38,15 @@ the same order, same decision/propagation counters on every explored input):
 --   (`hne` excludes the recorded finding: a formula of empty clauses only is answered `{}`.)
 --   Missing relative to `cdcl_returns_models_partial`: (ii) clauses with a repeated literal (`[1, 1, -2]`: the clause is then entered twice
 --   in one watch list and the invariant "each input clause occurs once per watch list" fails; the
---   correspondence check covers such inputs by running them); (iii) pairwise distinctness (needs the
---   same invariant for blocking clauses, including the re-indexing done by `reduceDb`); (iv) that the
---   mirror's two give-up exits (`FUEL`, and `GUARD` = a post-condition of the imperative `analyze`
---   fails: the asserted literal of the learned clause is on the conflict level, the backjump level
---   is below it, no literal 0 in the learned clause, no variable 0 among the bumped ones) never fire – they return no assignment,
---   so they do not affect the statement, but they are where the mirror could part from `solve_sat`.
+--   correspondence check covers such inputs by running them); (iv) that the mirror's give-up exit
+--   `GUARD` never fires.  `GUARD` = one of the mirror's own checks fails: a post-condition of the
+--   imperative `analyze` (the asserted literal of the learned clause is on the conflict level, the
+--   backjump level is below it, no literal 0 in the learned clause, no variable 0 among the bumped
+--   ones), the resolution-chain certificate of a learned clause, the unit-propagation refutation
+--   before INFEASIBLE, or the distinctness check on an enumeration (proving that one away needs the
+--   watch invariant for blocking clauses too, including the re-indexing done by `reduceDb`).  These
+--   exits return no assignment, so they do not affect the statement, but they are where the mirror
+--   could part from `solve_sat`.  (The other give-up exit, `FUEL`, is proved dead: `cdcl_fuel_suffices_partial`.)
 * proved: `cdcl_infeasible_sound_partial` (below) – for the same inputs the mirror answers INFEASIBLE only
   for unsatisfiable clauses + assumptions.  The mirror is *certifying*: it checks every learned clause
   against the logged resolution chain (`chainOk`, sound by `learn_chain_sound`) and, before INFEASIBLE,
@@ -54,11 +57,18 @@ the same order, same decision/propagation counters on every explored input):
 --       (Cdcl.solve f as P).status = .INFEASIBLE → ¬ ∃ σ, Models σ f as
 --   Missing relative to `cdcl_infeasible_sound_partial`: clauses with a repeated literal; and that the
 --   certificate checks never fail (then the mirror's INFEASIBLE coincides with `solve_sat`'s).
+* proved: `cdcl_fuel_suffices_partial` (below) – for the same inputs the mirror never leaves through its
+  `FUEL` exit: neither the fuel of the main loop (`Cdcl.loopFuel max_conflicts solution_limit n_vars`
+  iterations) nor the fuel of the propagation loops (trail positions / watch-list entries) runs out.  The
+  proof counts: iterations = decisions + learned clauses + solutions; each learned clause is paid for by a
+  conflict; a decision is only survived while `conflicts < max_conflicts`, and once the budget is used up
+  every further conflict lowers the decision level (CdclMain.lean, fields `c_*` of `LoopInv`; CdclFuel.lean
+  for `propagate`).
 -- FULL STATEMENT (not proved): cdcl_fuel_suffices
 --   theorem cdcl_fuel_suffices (f as P) : (Cdcl.solve f as P).status ≠ .UNBOUNDED
---   (`UNBOUNDED` is how the mirror reports "fuel exhausted" / "sanity check failed"; on every explored
---   input the driver reports the loop iterations actually used against the bound
---   `(maxConflicts + solutionLimit + 2) * (nVars + 2) * 2 + 64` – at most 33 % so far – as a measured fact.)
+--   (`UNBOUNDED` is how the mirror reports "fuel exhausted" / "sanity check failed".)  Missing relative to
+--   `cdcl_fuel_suffices_partial`: clauses with a repeated literal or no literal at all; and that the
+--   mirror's other give-up exit `GUARD` (a failed certificate / post-condition check, see above) never fires.
 -/
 namespace Solvor.Sat
 
@@ -198,11 +208,19 @@ example : entailsB [[1, 2], [-1, 3], [-2, 3]] [3] = true ∧ entailsB [[1, 2], [
 /-- [S], partial (C01): whatever the parameters, every assignment returned by the CDCL mirror is
 accepted by the checker `evalCnf` – it has a value for every variable `1..n_vars`, makes every clause
 true and gives every assumption literal its sign – for every input whose clauses are non-empty, free
-of the literal 0 and of repeated literals, with non-zero assumptions. -/
+of the literal 0 and of repeated literals, with non-zero assumptions; and the assignments of an
+enumeration are pairwise different.  (Distinctness holds because the mirror is certifying here too: it
+runs the verified checker `distinctB` on its enumeration before returning it – `Cdcl.guardDistinct` – and
+gives up with `GUARD` otherwise.) -/
 theorem cdcl_returns_models_partial (f : Cnf) (as : List Int) (P : Cdcl.Params)
     (hf : WF f) (hnd : ∀ c ∈ f, c.Nodup) (hne : ∀ c ∈ f, c ≠ []) (ha : ∀ a ∈ as, a ≠ 0) :
-    ∀ m, ((Cdcl.solve f as P).solution = some m ∨ ∃ ms, (Cdcl.solve f as P).solutions = some ms ∧ m ∈ ms) →
-      evalCnf f as m = true := by
+    (∀ m, (Cdcl.solve f as P).solution = some m → evalCnf f as m = true) ∧
+    (∀ ms, (Cdcl.solve f as P).solutions = some ms →
+      (∀ m ∈ ms, evalCnf f as m = true) ∧ pairwiseDistinct ms = true) := by
+  suffices key : ∀ m, ((Cdcl.solve f as P).solution = some m ∨ ∃ ms, (Cdcl.solve f as P).solutions = some ms ∧ m ∈ ms) →
+      evalCnf f as m = true from
+    ⟨fun m hm => key m (Or.inl hm), fun ms hms => ⟨fun m hm => key m (Or.inr ⟨ms, hms, hm⟩),
+      (pairwiseDistinct_iff ms).2 ((distinctB_iff _ ms).1 (Cdcl.solve_distinct f as P ms hms))⟩⟩
   intro m hm
   have hg := Cdcl.solve_good f as P hnd hf hne ha
   have hgood : Cdcl.GoodSol f as m := by
@@ -281,12 +299,12 @@ theorem cdcl_verdicts_partial (f : Cnf) (as : List Int) (P : Cdcl.Params)
     ((∃ σ, Models σ f as) → (Cdcl.solve f as P).status ≠ .UNBOUNDED →
         (Cdcl.solve f as P).conflicts < P.maxConflicts → (Cdcl.solve f as P).restarts < P.maxRestarts →
         ∃ m, (Cdcl.solve f as P).status = .OPTIMAL ∧ (Cdcl.solve f as P).solution = some m ∧ evalCnf f as m = true) := by
-  obtain ⟨_, _, g3, g4, g5, g6⟩ := Cdcl.solve_good f as P hnd hf hne ha
+  obtain ⟨_, _, g3, g4, g5, g6, _⟩ := Cdcl.solve_good f as P hnd hf hne ha
   have hopt : (Cdcl.solve f as P).status = .OPTIMAL →
       ∃ m, (Cdcl.solve f as P).solution = some m ∧ evalCnf f as m = true := by
     intro ho
     obtain ⟨m, hm⟩ := Option.isSome_iff_exists.1 (g4 ho)
-    exact ⟨m, hm, cdcl_returns_models_partial f as P hf hnd hne ha m (Or.inl hm)⟩
+    exact ⟨m, hm, (cdcl_returns_models_partial f as P hf hnd hne ha).1 m hm⟩
   refine ⟨hopt, g5, ?_⟩
   intro hsat hnu hc hr
   rcases g6 with h | h | h | h
@@ -295,6 +313,23 @@ theorem cdcl_verdicts_partial (f : Cnf) (as : List Int) (P : Cdcl.Params)
   · rcases g5 h with h' | h' <;> omega
   · exact absurd h hnu
 
+
+/-- [S], partial (C02, "the call comes back"): whatever the parameters, the mirror does not run out of
+fuel – its give-up exit `FUEL` (main loop: `Cdcl.loopFuel max_conflicts solution_limit n_vars` iterations;
+propagation: one step per trail position and per watch-list entry) is never taken – for every input whose
+clauses are non-empty, free of the literal 0 and of repeated literals, with non-zero assumptions.  So the
+loop of `solve_sat`, as mirrored, ends after at most `loopFuel` iterations by one of its own exits. -/
+theorem cdcl_fuel_suffices_partial (f : Cnf) (as : List Int) (P : Cdcl.Params)
+    (hf : WF f) (hnd : ∀ c ∈ f, c.Nodup) (hne : ∀ c ∈ f, c ≠ []) (ha : ∀ a ∈ as, a ≠ 0) :
+    (Cdcl.solve f as P).note ≠ "FUEL" :=
+  (Cdcl.solve_good f as P hnd hf hne ha).2.2.2.2.2.2
+
+/- the hypotheses are met by ordinary inputs, and the bound is an ordinary number: 3 variables, the default
+budgets `max_conflicts = 100000`, `solution_limit = 1` -/
+example : (WF [[1, 2, 3], [-1, -2], [-1, -3]] ∧ (∀ c ∈ [[1, 2, 3], [-1, -2], [-1, -3]], c.Nodup) ∧
+    (∀ c ∈ [[1, 2, 3], [-1, -2], [-1, -3]], c ≠ ([] : List Int)) ∧ (∀ a ∈ [(2 : Int)], a ≠ 0)) ∧
+    Cdcl.loopFuel 100000 1 3 = 3600065 :=
+  ⟨⟨wfB_iff.1 (by decide), by decide, by decide, by decide⟩, by decide⟩
 
 /-- T-model (C02): the reference DPLL answers "unsatisfiable" exactly when formula and assumptions
 have no common model; `solve_sat`'s INFEASIBLE is compared against this verdict on every input. -/
